@@ -771,11 +771,16 @@ func rulePopulationInsertSites(p *Program, r *Result, gk string, inserter *ssa.F
 					continue
 				}
 				bo, ok := iff.Cond.(*ssa.BinOp)
-				if !ok || bo.Op != token.EQL || !isNilConst(bo.Y) {
+				if !ok || (bo.Op != token.EQL && bo.Op != token.NEQ) || !isNilConst(bo.Y) {
 					continue
 				}
+				// the edge on which the lookup's handler is nil
+				nilEdge := b.Succs[0]
+				if bo.Op == token.NEQ {
+					nilEdge = b.Succs[1]
+				}
 				if call, idx, ok := extractOf(bo.X); ok && idx == 0 && len(call.Common().Args) > 0 && len(c.Common().Args) > 0 && call.Common().Args[0] == c.Common().Args[0] {
-					if b.Succs[0] == c.Block() || b.Succs[0].Dominates(c.Block()) {
+					if (nilEdge == c.Block() || nilEdge.Dominates(c.Block())) && len(nilEdge.Preds) == 1 {
 						if g, _ := guardedBySuccess(call, c, nil); g {
 							good = true
 						}
